@@ -191,6 +191,9 @@ Next == \E e \in BOOLEAN :
 
 Spec == Init /\ [][Next]_vars
 
+\* cfg:  VIEW HeapView  -- states are identified by the heap alone (res only reports the last action)
+HeapView == heap
+
 ---------------------------------------------------------------------------
 \* properties checked by TLC
 
